@@ -1007,3 +1007,51 @@ def c12(ctx):
     if len(ctx.violations) > 5:
         ctx.violations.sort(key=lambda v: not v[2]); ctx.violations = ctx.violations[:5]
     return finish(ctx, 'proof', ob, dis, details, rule)
+
+
+@prop('C11')
+def c11(ctx):
+    rule = ('random histories of API operations (Sequence, Append, every annotation, Cluster, Bind, SetCallback, Condense, Down/UpFlows, '
+            'String, named edits) over a pool of collections that share providers: after EVERY operation every collection that existed '
+            'before is mirrored field by field (ids, order, names, all annotations, cluster partition) and compared with its mirror at '
+            'creation; every 5 operations each is re-bound and run and compared with its behaviour at creation; finally 8 goroutines bind '
+            'the shared collections concurrently under the race detector; write inventory regenerated from the source (decide)')
+    ob, dis, details = proof_obligations(ctx, 'C11')
+    rounds = 40 if ctx.tier == 'quick' else 400
+    lines, races, stderr = vcheck.history_run(ctx, rounds)
+    ndiff = 0; nhist = 0; ncoll = 0; steps = 0
+    for l in lines or []:
+        if l.startswith('history diff'):
+            ndiff += 1
+            if ndiff <= 5:
+                ctx.violations.append(('an existing collection changed: %s' % l[13:260], write_replay(ctx, 'history_%d.txt' % ndiff, '\n'.join(lines[:200])), True))
+        elif l.startswith('history done'):
+            nhist += 1
+            d = kv(l)
+            ncoll += int(d.get('collections', 0)); steps += int(d.get('steps', 0))
+            if len(ctx.samples) < 3:
+                ctx.samples.append(l)
+    if races:
+        ctx.violations.append(('the race detector reported %d data race(s) while collections were bound concurrently' % races,
+                               write_replay(ctx, 'race_report.txt', stderr), True))
+    # also the determinism/neutrality pairs: re-binding the same description
+    cases = load_cases(ctx, 'neutral', 300 if ctx.tier == 'quick' else 3000)
+    same = 0
+    for c in cases or []:
+        for l in pair_lines(c):
+            tk = l.split()
+            if tk[1].startswith('group-') or tk[1] == 'named':
+                if tk[2] == 'same':
+                    same += 1
+                else:
+                    ctx.violations.append(('same description built differently behaves differently: %s (case %s)' % (' '.join(tk[1:])[:160], c.key),
+                                           write_replay(ctx, 'case_%s.txt' % c.key, c.text()), True))
+    ctx.cov['evaluations'] = steps + same
+    ctx.cov['programs'] = nhist
+    ctx.cov['distinct_nontrivial'] = nhist + same
+    ctx.cov['traces_validated_against_impl'] = steps
+    ctx.cov['histories'] = nhist; ctx.cov['operations'] = steps; ctx.cov['collections_tracked'] = ncoll
+    ctx.cov['history_diffs'] = ndiff; ctx.cov['race_reports'] = races; ctx.cov['rebuild_pairs_same'] = same
+    ctx.assumptions += ['the extractor\'s freshness classification is syntactic (object created in the same function / closure parameter of modify / private array)',
+                        'Go memory model not modelled; the race detector supports the validation']
+    return finish(ctx, 'proof', ob, dis, details, rule)
